@@ -127,6 +127,13 @@ func (ex *Exec) frameObligations(c *FuncContract, fr *Frame, entry *State) {
 			ks = append(ks, k)
 		}
 		sort.Strings(ks)
+		// one obligation per root type: all its written components, one skolem object
+		type grp struct {
+			sk    *Term
+			conds []*Term
+		}
+		groups := map[string]*grp{}
+		var order []string
 		for _, k := range ks {
 			cls := heapClass(k)
 			if allowedCls[cls] || !sameDflt(r.st.dflt[cls], entry.dflt[cls]) {
@@ -160,16 +167,27 @@ func (ex *Exec) frameObligations(c *FuncContract, fr *Frame, entry *State) {
 			if allowed {
 				continue
 			}
-			sk := tb.Fresh("frame$r", SInt)
-			hyp := []*Term{tb.Lt(sk, base0)}
+			g := groups[rootKey]
+			if g == nil {
+				g = &grp{sk: tb.Fresh("frame$r", SInt)}
+				groups[rootKey] = g
+				order = append(order, rootKey)
+			}
+			hyp := []*Term{tb.Lt(g.sk, base0)}
 			for _, t := range targets {
 				if t.rootKey == rootKey && t.lo <= comp && comp < t.hi {
-					hyp = append(hyp, tb.Ne(sk, t.ref))
+					hyp = append(hyp, tb.Ne(g.sk, t.ref))
 				}
 			}
-			cond := tb.Implies(tb.And(hyp...), tb.Eq(tb.Select(hf, sk), tb.Select(h0, sk)))
+			g.conds = append(g.conds, tb.Implies(tb.And(hyp...), tb.Eq(tb.Select(hf, g.sk), tb.Select(h0, g.sk))))
+		}
+		for _, rootKey := range order {
 			saved := r.st.pc
-			ex.oblige(r.st, "frame", k, cond, nil, "an object outside the modifies clause is written")
+			short := rootKey
+			if i := strings.LastIndex(short, "/"); i >= 0 {
+				short = short[i+1:]
+			}
+			ex.oblige(r.st, "frame", short, tb.And(groups[rootKey].conds...), nil, "an object of type "+rootKey+" outside the modifies clause is written")
 			r.st.pc = saved
 		}
 	}
